@@ -65,6 +65,29 @@ def text_stage(rep):
                                   f"expected {cat}; parser produced prefixes {parsed}", {"model_text": text, "expected_category": cat, "got": where, "parsed_prefixes": parsed})
                 elif parsed != words:
                     rep.harness_error(f"{case}: parser prefixes {parsed} differ from the harness's list {words} although the classification agrees")
+    # array-sized variables, including size 0 (from a parameter): a variable that is in no category is in no output list
+    for nsz, decl in itertools.product((0, 1, 2), ("output Real y[n];", "output Real y[n]; output Real y2;", "Real y[n]; output Real y2[n];", "input Real y[n];", "parameter Real y[n] = fill(1.0, n);")):
+        text = f"model M\n  parameter Integer n = {nsz};\n  {decl}\n  Real z;\nequation\n  z = 1;\n" + \
+               ("  y = fill(2.0, n);\n" if decl.startswith(("output Real y[n]", "Real y[n]")) else "") + \
+               ("  y2 = 3;\n" if "output Real y2;" in decl else "") + ("  y2 = fill(4.0, n);\n" if "y2[n]" in decl else "") + "end M;\n"
+        n += 1
+        case = f"text:array[n={nsz},{decl}]"
+        try:
+            m = generator.generate(parser.parse(text, bypass_cache=True), "M", {})
+        except Exception as e:
+            rep.coverage["array_models_rejected"] = rep.coverage.get("array_models_rejected", 0) + 1
+            continue
+        cats, ders, outs = h10.observe(m)
+        everywhere = [x for k in cats for x in cats[k]]
+        for o in outs:
+            if o not in cats["states"] + cats["alg_states"]:
+                rep.violation(case + ":output-not-a-variable", f"outputs lists {o}, which is neither a state nor an algebraic variable of the model (categories: {cats})", {"model_text": text})
+        for x in set(everywhere):
+            if everywhere.count(x) != 1:
+                rep.violation(case + ":duplicate", f"{x} appears {everywhere.count(x)} times in the category lists", {"model_text": text})
+        want_out = [nm for nm in ("y", "y2") if re.search(rf"output Real {nm}\b", decl) and (nm in cats["states"] + cats["alg_states"])]
+        if sorted(outs) != sorted(want_out):
+            rep.violation(case + ":outputs", f"outputs = {outs}, expected {want_out}", {"model_text": text})
     rep.coverage["real_text_spellings_checked"] = n
     return n
 
